@@ -21,6 +21,10 @@ THEOREMS = [
     "C27_record_roundtrip",
     "C27_wait_replay_exact",
     "C27_wait_fresh_records",
+    "C27_replaying_source_shape",
+    "C27_last_replayed_tick_live",
+    "C27_replay_over_stays_over",
+    "C27_replay_flags",
     "C27_refuted_timer",
     "C27_replay_partial",
     "C27_refuted_purge",
@@ -145,6 +149,15 @@ class JournalImpl:
         self.crud = self.Crud(db_path=self.path)
         self.run = ""
         self.tj = self.TJ("", self.crud)
+        self.adapter = self._new_adapter("")
+
+    def _new_adapter(self, run: str) -> Any:
+        """the real InternalDBOSAdapter of a new process (SQLite configured), holding this process's TaskJournal"""
+        import llama_agents.dbos.runtime as RT
+
+        a = RT.InternalDBOSAdapter(run, None, None, db_path=self.path)
+        a._journal = self.tj  # what _get_or_create_journal() would create lazily
+        return a
 
     def show_tj(self) -> str:
         es = self.tj._entries
@@ -178,6 +191,7 @@ class JournalImpl:
                 return "bad-op"
             self.run = f[1]
             self.tj = self.TJ(self.run, self.crud)
+            self.adapter = self._new_adapter(self.run)
             return "ok"
         if f == ["load"]:
             _sync(self.tj.load())
@@ -189,6 +203,8 @@ class JournalImpl:
             return "1" if self.tj.is_replaying() else "0"
         if f == ["has"]:
             return "1" if self.tj.has_entries else "0"
+        if f == ["areplaying"]:
+            return "1" if self.adapter.is_replaying() else "0"
         if f == ["advance"]:
             self.tj.advance()
             return self.show_tj()
@@ -261,7 +277,7 @@ def gen_k1_stream(rng: random.Random, n: int) -> list[str]:
         elif r < 0.32:
             ops.append("load")
         elif r < 0.42:
-            ops.append(rng.choice(["next", "replaying", "has"]))
+            ops.append(rng.choice(["next", "replaying", "has", "areplaying", "areplaying"]))
         elif r < 0.50:
             ops.append("advance")
         elif r < 0.58:
@@ -309,7 +325,8 @@ def k1(env: Env, out: Outcome, workdir: str) -> None:
     streams: list[list[str]] = []
     # hand-picked: out-of-order raw inserts then load; record after reload; purge with and without entries
     streams.append(["new", "boot|r1", "insert|r1|2|c:0", "insert|r1|0|a:0", "insert|r2|0|b:1", "insert|r1|1|b:0", "rawload|r1", "load",
-                    "next", "advance", "next", "advance", "advance", "next", "replaying", "record|a:1", "rawload|r1", "dump",
+                    "areplaying", "next", "advance", "areplaying", "next", "advance", "areplaying", "advance", "areplaying", "next", "replaying",
+                    "record|a:1", "areplaying", "rawload|r1", "dump",
                     "boot|r1", "load", "has", "addop|r1|5|x", "addop|r1|9|y", "addop|r2|9|z", "purge|5", "boot|r2", "purge|0", "dump",
                     "boot|r3", "has", "purge|0", "record|a:0", "record|a:0", "boot|r3", "load", "truncate|r3|1", "rawload|r3", "dump"])
     streams.append(["new", "boot|r1"] + MALFORMED + ["dump"])
@@ -322,7 +339,7 @@ def k1(env: Env, out: Outcome, workdir: str) -> None:
     out.evaluations += len(flat)
     out.traces_validated += len(streams)
     for l in flat:
-        out.count("k1_op:" + l.split("|")[0] if l.split("|")[0] in ("new", "boot", "load", "next", "replaying", "has", "advance", "record", "purge", "insert", "rawload", "delete", "truncate", "purgeops", "addop", "dump") else "k1_op:malformed")
+        out.count("k1_op:" + l.split("|")[0] if l.split("|")[0] in ("new", "boot", "load", "next", "replaying", "areplaying", "has", "advance", "record", "purge", "insert", "rawload", "delete", "truncate", "purgeops", "addop", "dump") else "k1_op:malformed")
     d = diff_streams(MODEL, flat, model_out, impl_out, context="K1 TaskJournal/SqliteJournalCrud")
     if d is not None:
         out.divergences.append(d)
@@ -447,6 +464,8 @@ def k2(env: Env, out: Outcome, workdir: str) -> None:
                     tr.journal_now = R._journal_rows(path, "r1")
                     lines.append("boot|r1")
                     impl_out.append("ok")
+                    lines.append("areplaying")
+                    impl_out.append("1" if adapter.is_replaying() else "0")
                     continue
                 if step["op"] == "addop":
                     conn = sqlite3.connect(path)
@@ -483,6 +502,8 @@ def k2(env: Env, out: Outcome, workdir: str) -> None:
                 wc = tr.waits[n0]
                 lines.append(wait_line(wc))
                 impl_out.append(wait_out(wc))
+                lines.append("areplaying")
+                impl_out.append("1" if adapter.is_replaying() else "0")
                 lines.append("dump")
                 impl_out.append(impl0.dump())
 
@@ -527,6 +548,8 @@ def k3_lines(tr: Any, initial_rows: list) -> tuple[list[str], list[str]]:
     for wc in tr.waits:
         lines.append(wait_line(wc))
         impl.append(wait_out(wc))
+        lines.append("areplaying")
+        impl.append("1" if wc.replaying_after else "0")
     return lines, impl
 
 
@@ -636,7 +659,138 @@ def check_recovery(ref: Any, snap: dict, rec: Any, case: dict, out: Outcome, det
     return "bad"
 
 
-def run_case(spec: dict, seed: int, out: Outcome, env: Env, *, actions: list[int] | None = None, select: Any = None,
+def _multiset(xs: list) -> dict:
+    d: dict = {}
+    for x in xs:
+        d[x] = d.get(x, 0) + 1
+    return d
+
+
+def _is_subsequence(small: list, big: list) -> bool:
+    it = iter(big)
+    return all(any(x == y for y in it) for x in small)
+
+
+def tick_windows(ref: Any, k: int) -> tuple[int, tuple[int, int]]:
+    """from the uninterrupted run alone: (number of ticks reduced before its first wait_for_next_task call,
+    (lo, hi]) = the ticks reduced between the return of the call that delivered the k-th journaled completion and
+    the next call (the "boundary" tick(s) of a stop with k journal rows).  Counted as `len(ticks)` at publication."""
+    first = ref.waits[0].ticks_before if ref.waits else len(ref.ticks)
+    if k == 0:
+        return first, (0, 0)
+    seen = 0
+    for i, w in enumerate(ref.waits):
+        if w.returned is not None:
+            seen += 1
+            if seen == k:
+                hi = ref.waits[i + 1].ticks_before if i + 1 < len(ref.waits) else len(ref.ticks)
+                return first, (w.ticks_before, hi)
+    return first, (len(ref.ticks), len(ref.ticks))
+
+
+def check_store(ref: Any, snap: dict, rec: Any, case: dict, out: Outcome, *, det: bool = True, bound_duplicates: bool = True) -> None:
+    """server mode, clean stop point, replay verified equal (tag ok): the published events as STORED in the workflow
+    store (both process lives together).  Nothing here consults `is_replaying()`; what is expected is recomputed from the
+    uninterrupted run `ref`, the stop point, and what the recovered control loop itself handed to the adapter.
+      (1) every event the uninterrupted run published up to and including the tick of the last journaled completion
+          (that part of the execution is fixed by the journal) is in the store, in order;
+      (2) from that tick on, the recovered process stores exactly what its control loop publishes (the crashed process
+          cannot be known to have published any of it);
+      (3) the stored handler status/result is that of the run (and of the uninterrupted run, for deterministic workflows);
+      (4) an event of an earlier tick is not stored again - except the ticks reduced before the journal is first read."""
+    k = len(snap["journal"])
+    where = f"stop point {snap['kind']} after {snap['writes']} durable writes, journal length {k}, {snap.get('stored', '?')} events stored"
+    first, (lo, hi) = tick_windows(ref, k)
+    if k == 0:
+        lo, hi = 0, first  # nothing journaled: the ticks before the first wait call are the fixed part, and all of it is "boundary"
+    if len(ref.store_appends) != len(ref.store_events):
+        out.violations.append(Violation("C27/harness_store_observer_incomplete",
+                                        f"{where}: {len(ref.store_appends)} appends seen, {len(ref.store_events)} rows", case))
+        return
+
+    def window(stamp: int) -> str:
+        if lo < stamp <= hi:
+            return "last_journaled_tick" if k >= 1 else "before_first_wait"
+        if stamp <= first:
+            return "before_first_wait"
+        return "replayed_part" if stamp <= lo else "fresh_part"
+
+    def short(ev: str) -> str:
+        t, _, v = ev.partition(":")
+        if t == "StepStateChanged":
+            try:
+                d = json.loads(v)
+                return f"StepStateChanged({d.get('name')},{d.get('step_state')})"
+            except Exception:  # noqa: BLE001
+                pass
+        return t
+
+    got = rec.store_events
+    terminal_ev = ref.store_events[-1] if ref.store_events and ref.handler is not None and ref.handler[0] == "completed" else None
+    # ---- (1) the fixed part, against the uninterrupted run
+    fixed = [(st, ev) for (st, ev) in ref.store_appends if st <= hi]
+    gm = _multiset(got)
+    lost: list[tuple] = []
+    for ev, n in _multiset([ev for (_st, ev) in fixed]).items():
+        miss = n - gm.get(ev, 0)
+        if miss > 0:
+            lost += [(st, e) for (st, e) in fixed if e == ev][-miss:]
+    rule1 = bool(lost)
+    # ---- (2) from the boundary tick on: stored by the recovered process == published by its control loop
+    pub = [(st, ev) for (st, ev) in rec.published if st > lo]
+    app = [(st, ev) for (st, ev) in rec.store_appends if st > lo]
+    if not lost and [e for (_s, e) in pub] != [e for (_s, e) in app]:
+        am = _multiset([e for (_s, e) in app])
+        for ev, n in _multiset([e for (_s, e) in pub]).items():
+            miss = n - am.get(ev, 0)
+            if miss > 0:
+                lost += [(st, e) for (st, e) in pub if e == ev][-miss:]
+    if lost:
+        lost.sort(key=lambda p: p[0])
+        wins = sorted({window(st) for (st, _e) in lost})
+        # the terminal event of the run (the StopEvent that completes it) is among the lost ones
+        term = int(any(ev == terminal_ev for (_st, ev) in lost) or
+                   (rec.outcome[0] == "result" and bool(rec.published) and rec.published[-1] in lost))
+        out.violations.append(Violation(
+            f"C27/published_event_never_stored_after_recovery[tick={'+'.join(wins)},terminal_event={term}]",
+            f"{where}: after the stop and the recovery the workflow store holds {len(got)} events of the run and lacks "
+            f"{[short(e) + '@tick' + str(st) for (st, e) in lost]}"
+            + (f" which the uninterrupted run published (it stored {len(ref.store_events)})" if rule1 else " which the recovered control loop published")
+            + f"; recovered process stored {[short(e) for (_s, e) in rec.store_appends]}", case))
+    elif not _is_subsequence([ev for (_st, ev) in fixed], got):
+        out.violations.append(Violation("C27/stored_events_reordered_after_recovery",
+                                        f"{where}: the store does not hold the {len(fixed)} events of the journaled part in the uninterrupted run's order", case))
+    # ---- (3) handler status / result
+    if rec.outcome[0] == "result":
+        want_h = ref.handler if det else ("completed", rec.handler[1] if rec.handler else None)
+        if rec.handler is None or rec.handler[0] != "completed" or (det and rec.handler != want_h):
+            u, r = (want_h or ("<no row>", None)), (rec.handler or ("<no row>", None))
+            out.violations.append(Violation(
+                f"C27/handler_status_differs_after_recovery[uninterrupted={u[0]},recovered={r[0]}]",
+                f"{where}: the recovered run finished ({R_canon(rec.outcome)}) but the stored handler is {r}, uninterrupted run: {u}", case))
+    # ---- (4) stored again
+    again = [(st, ev) for (st, ev) in rec.store_appends if st <= lo]
+    for st, ev in again:
+        out.count("store_duplicates:" + window(st))
+    for st, ev in app:
+        if st <= hi and any(e == ev for (_s, e) in ref.store_appends[: int(snap.get("stored", 0))]):
+            out.count("store_duplicates:" + window(st))
+    bad = [(st, ev) for (st, ev) in again if window(st) != "before_first_wait"]
+    if bound_duplicates and bad and not lost:
+        out.violations.append(Violation(
+            f"C27/published_event_stored_again_after_recovery[tick={'+'.join(sorted({window(st) for (st, _e) in bad}))}]",
+            f"{where}: the recovered process stored {[short(e) + '@tick' + str(st) for (st, e) in bad]} again although the crashed process had "
+            f"journaled a later completion (so it had published them)", case))
+    out.count("store_checked")
+
+
+def R_canon(outcome: tuple) -> str:
+    from ..dbos_standin import runs as R
+
+    return R.canon_result(outcome)
+
+
+def run_case(spec: dict, seed: int, out: Outcome, env: Env, *, server: dict | None = None, actions: list[int] | None = None, select: Any = None,
              max_recover: int = 1000, other_p: float = 0.0, det: bool = True, second_level: int = 0, name: str = "") -> None:
     from ..dbos_standin import runs as R
 
@@ -645,12 +799,19 @@ def run_case(spec: dict, seed: int, out: Outcome, env: Env, *, actions: list[int
     def snap_filter(kind: str, meta: dict) -> bool:
         if kind in ("wf_end",):
             return False
-        if kind.startswith("journal_"):
+        if kind.startswith("journal_") or kind.startswith("store_"):
             return True
         return frng.random() < other_p
 
-    ref = R.fresh_run(spec, seed, snap_filter=snap_filter, replay_actions=actions)
-    base_case = {"kind": "recover", "spec": spec, "seed": seed, "actions": list(ref.actions), "other_p": other_p, "det": det, "name": name}
+    ref = R.fresh_run(spec, seed, snap_filter=snap_filter, replay_actions=actions, server=server)
+    base_case = {"kind": "recover", "spec": spec, "seed": seed, "actions": list(ref.actions), "other_p": other_p, "det": det, "name": name,
+                 "server": server}
+    if server:
+        out.count("fresh_runs:server" + ("+interceptor" if server.get("intercept") else ""))
+        out.count("stored_events", len(ref.store_events))
+        if det and ref.outcome[0] == "result" and (ref.handler is None or ref.handler[0] != "completed" or not ref.store_events):
+            out.violations.append(Violation("C27/uninterrupted_run_not_stored_as_completed",
+                                            f"{name}: handler {ref.handler}, {len(ref.store_events)} stored events", dict(base_case, snapshot=None)))
     out.evaluations += 1
     out.count("fresh_runs")
     out.count("fresh_outcome:" + ref.outcome[0])
@@ -667,9 +828,11 @@ def run_case(spec: dict, seed: int, out: Outcome, env: Env, *, actions: list[int
     if select is not None:
         snaps = [s for s in snaps if select(s)]
     if len(snaps) > max_recover:
-        # every journal length first (pre and post INSERT), the rest sampled
-        jr = [s for s in snaps if s["kind"].startswith("journal_")]
-        rest = [s for s in snaps if not s["kind"].startswith("journal_")]
+        # every journal length first (pre and post INSERT), the rest sampled; in server mode the stops between a journal
+        # INSERT and the end of the publication of that completion's tick come first
+        prio = ("journal_post_insert", "store_") if server else ("journal_",)
+        jr = [s for s in snaps if s["kind"].startswith(prio)]
+        rest = [s for s in snaps if not s["kind"].startswith(prio)]
         env.rng.shuffle(rest)
         if len(jr) > max_recover:
             keep = sorted(env.rng.sample(range(len(jr)), max_recover))
@@ -681,8 +844,8 @@ def run_case(spec: dict, seed: int, out: Outcome, env: Env, *, actions: list[int
         if second_level and s["index"] % 4 == 0:
             srng = random.Random(rseed)
             sub_filter = lambda kind, meta: kind.startswith("journal_") and srng.random() < 0.5  # noqa: E731
-        rec = R.recover_run(spec, s, rseed, snap_filter=sub_filter)
-        case = dict(base_case, snapshot={"kind": s["kind"], "writes": s["writes"]}, rec_seed=rseed)
+        rec = R.recover_run(spec, s, rseed, snap_filter=sub_filter, server=server)
+        case = dict(base_case, snapshot={"kind": s["kind"], "writes": s["writes"], "stored": s.get("stored", 0)}, rec_seed=rseed)
         out.evaluations += 1
         out.count("recoveries")
         out.count("stop_point:" + s["kind"])
@@ -690,6 +853,8 @@ def run_case(spec: dict, seed: int, out: Outcome, env: Env, *, actions: list[int
         tag = check_recovery(ref, s, rec, case, out, det)
         if tag != "timer":  # after a replay that is known to diverge (timer finding) the process is not a valid execution
             check_process(rec, "recovered run", case, out)
+        if server and tag == "ok" and ref.outcome[0] == "result":
+            check_store(ref, s, rec, case, out, det=det)
         out.count("recovery:" + tag)
         out.count("replayed_entries", len(s["journal"]))
         l2, i2 = k3_lines(rec, [tuple(r) for r in s["journal"]])
@@ -697,7 +862,7 @@ def run_case(spec: dict, seed: int, out: Outcome, env: Env, *, actions: list[int
         if second_level and tag in ("ok", "ok-dirty") and s["index"] % 4 == 0:
             subs = [x for x in rec.snapshots if x["state"]["workflows"].get(R.RUN_ID, {}).get("status") == "PENDING"][:second_level]
             for x in subs:
-                rec2 = R.recover_run(spec, x, rseed * 17 + x["index"])
+                rec2 = R.recover_run(spec, x, rseed * 17 + x["index"], server=server)
                 case2 = dict(case, second={"kind": x["kind"], "writes": x["writes"]})
                 out.evaluations += 1
                 out.count("recoveries_second_level")
@@ -705,6 +870,8 @@ def run_case(spec: dict, seed: int, out: Outcome, env: Env, *, actions: list[int
                 tag2 = check_recovery(rec, x, rec2, case2, out, det and tag == "ok")
                 if tag2 != "timer":
                     check_process(rec2, "twice recovered run", case2, out)
+                if server and tag == "ok" and tag2 == "ok" and ref.outcome[0] == "result":
+                    check_store(ref, x, rec2, case2, out, det=det)  # against the uninterrupted run
                 out.count("recovery2:" + tag2)
     # K3: every wait_for_next_task call of every process against the model
     flat = [l for (ls, _i, _c) in streams for l in ls]
@@ -744,6 +911,8 @@ def _selector(desc: dict | None) -> Any:
             return False
         if "writes" in desc and s["writes"] != desc["writes"]:
             return False
+        if "stored" in desc and s.get("stored", 0) != desc["stored"]:
+            return False
         if len(s["journal"]) < desc.get("min_journal", 0):
             return False
         if desc.get("first") and state["taken"] >= 1:
@@ -755,6 +924,7 @@ def _selector(desc: dict | None) -> Any:
 
 
 CORPUS_FILES = ["c27_recv_purged.json", "c27_timer_order.json"]
+CORPUS_FIRST = ["c27_stop_between_journal_and_publication.json"]  # hand-picked stop points, run before everything else
 
 # a three-step chain and a two-way fan-out: every journal length, before and after the INSERT
 CORPUS_INLINE = [
@@ -790,7 +960,7 @@ def run(env: Env) -> Outcome:
             if case.get("kind") == "recover":
                 snap = case.get("snapshot")
                 run_case(case["spec"], case["seed"], out, env, actions=case.get("actions"), other_p=case.get("other_p", 0.0),
-                         det=case.get("det", True), select=_selector(dict(snap, first=True)) if snap else (lambda s: False),
+                         det=case.get("det", True), server=case.get("server"), select=_selector(dict(snap, first=True)) if snap else (lambda s: False),
                          name="replay:" + str(case.get("name", "")))
             elif case.get("kind") == "k1":
                 impl = JournalImpl(workdir)
@@ -803,6 +973,11 @@ def run(env: Env) -> Outcome:
                 if d is not None:
                     out.divergences.append(d)
                     out.violations.append(Violation("C27/journal_object_diverges_from_model", f"op {d.op!r}: model {d.model_out!r} vs real {d.impl_out!r}", case))
+        # ---- hand-picked stop points first
+        for fn in CORPUS_FIRST:
+            c = json.load(open(os.path.join(VERIF, "harness", "corpus", fn)))
+            run_case(c["spec"], c["seed"], out, env, actions=c.get("actions"), other_p=c.get("other_p", 0.0),
+                     select=_selector(c.get("select")), server=c.get("server"), name="corpus:" + fn)
         # ---- K1, K2
         k1(env, out, workdir)
         k2(env, out, workdir)
@@ -810,6 +985,12 @@ def run(env: Env) -> Outcome:
         for c in CORPUS_INLINE:
             run_case(c["spec"], c["seed"], out, env, other_p=0.5, max_recover=env.budget(12, 60), name="corpus:" + c["name"],
                      second_level=1 if env.tier != "quick" else 0)
+        # the same workflows behind the server's adapter chain (published events go to the workflow store): every stop between
+        # a journal INSERT and the end of the publication of that completion's tick, every journal length
+        for c in CORPUS_INLINE:
+            for intercept in (True, False):
+                run_case(c["spec"], c["seed"], out, env, other_p=0.1, max_recover=env.budget(40, 120), server={"intercept": intercept},
+                         name=f"corpus:{c['name']}:server{'+interceptor' if intercept else ''}", second_level=1 if env.tier != "quick" else 0)
         for fn in CORPUS_FILES:
             path = os.path.join(VERIF, "harness", "corpus", fn)
             if not os.path.exists(path):
@@ -817,14 +998,18 @@ def run(env: Env) -> Outcome:
                 continue
             c = json.load(open(path))
             run_case(c["spec"], c["seed"], out, env, actions=c.get("actions"), other_p=c.get("other_p", 0.0),
-                     select=_selector(c.get("select")), name="witness:" + fn)
+                     select=_selector(c.get("select")), server=c.get("server"), name="witness:" + fn)
         # ---- generated: deterministic family, timer-free (the guards of the theorems hold: monitors must be silent)
         n_specs = env.budget(3, 20)
         for i in range(n_specs):
             spec = specgen.gen_det_spec(env.rng)
             out.count("spec:det")
-            run_case(spec, env.rng.randrange(1 << 30), out, env, other_p=0.15 if env.tier == "quick" else 0.4,
+            sd = env.rng.randrange(1 << 30)
+            run_case(spec, sd, out, env, other_p=0.15 if env.tier == "quick" else 0.4,
                      max_recover=env.budget(9, 45), name=f"det{i}", second_level=0 if env.tier == "quick" else 1)
+            # ... and behind the server's adapter chain (alternating with / without the event interceptor)
+            run_case(spec, sd, out, env, other_p=0.05, max_recover=env.budget(24, 60), server={"intercept": i % 2 == 0},
+                     name=f"det{i}:server", second_level=0 if env.tier == "quick" else 1)
         # ---- generated: general timer-free workflows (failures, handlers, collects): replayed part only
         for i in range(env.budget(1, 12)):
             spec = specgen.gen_spec(env.rng, family="general", allow_wait=False, allow_retry=False, allow_external=False,
